@@ -6,7 +6,8 @@
 * Consts.lean    — constants and enum tables read from the imported modules.
 * Leaf.lean      — leaf decision functions translated from the Python AST (fail-closed).
 """
-import ast, inspect, io, contextlib, os, sys, logging
+import ast
+import re, inspect, io, contextlib, os, sys, logging
 logging.disable(logging.CRITICAL)
 HERE = os.path.dirname(os.path.abspath(__file__))
 ROOT = os.path.abspath(os.path.join(HERE, '..'))
@@ -56,11 +57,29 @@ def sample_lines():
     return lines, fam, ctl
 
 
+NO_VARIANTS = ('pushints', 'pushbytess', 'switch', 'match', 'proto', 'intcblock', 'bytecblock', '#pragma')
+
+def immediate_variants(lines):
+    """(variant line, index of its base line): every decimal immediate of a non-family sample replaced by 0, 1, 2 and 255.
+    The AVM's stack effect, class, version and mode of these opcodes do not depend on the VALUE of an immediate."""
+    out = []
+    for idx, l in enumerate(lines):
+        w = l.split()
+        if not w or w[0] in FAMILIES or w[0] in NO_VARIANTS: continue
+        for k in range(1, len(w)):
+            if not re.fullmatch(r'\d+', w[k]): continue
+            for v in ('0', '1', '2', '255'):
+                if w[k] != v: out.append((' '.join(w[:k] + [v] + w[k + 1:]), idx))
+    return out
+
+
 def op_rows():
     from tealer.teal.instructions.parse_instruction import parse_line
     lines, fam, ctl = sample_lines()
     rows, errors = [], []
-    for group, ls in (('corpus', lines), ('family', fam), ('control', ctl)):
+    plain_lines = lines + ctl
+    variants = immediate_variants(plain_lines)
+    for group, ls in (('corpus', lines), ('family', fam), ('control', ctl), ('variant', [v for v, _ in variants])):
         for l in ls:
             try:
                 buf = io.StringIO()
@@ -98,8 +117,9 @@ def render_table(ns, rows, header):
 def gen_optable():
     rows, errors = op_rows()
     errors = [e for e in errors if 'label: add' not in e]
-    plain = [r for r in rows if r[0] != 'family']
+    plain = [r for r in rows if r[0] not in ('family', 'variant')]
     fam = [r for r in rows if r[0] == 'family']
+    var = [r for r in rows if r[0] == 'variant']
     out = render_table("Tealer.Generated", plain, "/- REGENERATED on every run by harness/extract.py from /repo (do not edit). -/")
     out.append("/-- immediate families: (opcode, immediate or operand count, second immediate, pops, pushes) as built by the real parse_line -/")
     body = []
@@ -122,6 +142,20 @@ def gen_optable():
         out.append("]")
     out.append("def familiesChunks : List (List (String × Int × Nat × Nat × Nat)) := [" + ", ".join(fnames) + "]")
     out.append("def families : List (String × Int × Nat × Nat × Nat) := familiesChunks.flatten")
+    # immediate variants: (variant line, base line, class, pops, pushes, version, mode) as built by the real parse_line
+    lines_, fam_, ctl_ = sample_lines()
+    base_of = dict(immediate_variants(lines_ + ctl_))
+    plain_lines = lines_ + ctl_
+    vbody = [f"  ({lean_str(l)}, {lean_str(plain_lines[base_of[l]])}, {lean_str(cls)}, {po}, {pu}, {ver}, {mode})" for (g, l, cls, txt, po, pu, ver, mode) in var if l in base_of]
+    vnames = []
+    for k in range(0, len(vbody), 64):
+        nm = f"immVariants{k // 64}"
+        vnames.append(nm)
+        out.append(f"def {nm} : List (String × String × String × Nat × Nat × Nat × Nat) := [")
+        out.append(",\n".join(vbody[k:k + 64]))
+        out.append("]")
+    out.append("/-- samples whose decimal immediates were replaced by 0 / 1 / 2 / 255: (variant, base sample, class, pops, pushes, version, mode) -/")
+    out.append("def immVariantsChunks : List (List (String × String × String × Nat × Nat × Nat × Nat)) := [" + ", ".join(vnames) + "]")
     out += ["", "end Tealer.Generated", ""]
     return "\n".join(out), rows, errors
 
@@ -454,7 +488,7 @@ def gen_leaf():
     errors = []
     out = ["/- REGENERATED on every run by harness/extract.py: leaf decision functions translated from the Python AST of /repo. -/",
            "import TealerModel.Syntax", "import TealerModel.OSet", "import TealerModel.Generated.Consts", "namespace Tealer.Generated", "",
-           "structure GFeeValue where", "  isUnknown : Bool", "  value : Nat", "deriving DecidableEq, Repr", ""]
+           "structure GFeeValue where", "  isUnknown : Bool", "  value : Nat", "deriving DecidableEq, Repr, Inhabited", ""]
     tr = FeeTranslator()
     for name, lean_name, params in (('_union', 'feeUnion', '(a b : GFeeValue) : GFeeValue'),
                                     ('_intersection', 'feeInter', '(a b : GFeeValue) : GFeeValue'),
@@ -593,6 +627,13 @@ def regenerate():
         if write_if_changed(os.path.join(GEN, 'Leaf.lean'), txt): res['changed'].append('Leaf.lean')
     except Exception as e:  # noqa
         res['errors'].append(f"Leaf: {type(e).__name__}: {e}")
+    try:
+        import matchers_gen
+        txt, errs = matchers_gen.gen_matchers()
+        res['errors'] += [f"Matchers: {x}" for x in errs]
+        if write_if_changed(os.path.join(GEN, 'Matchers.lean'), txt): res['changed'].append('Matchers.lean')
+    except Exception as e:  # noqa
+        res['errors'].append(f"Matchers: {type(e).__name__}: {e}")
     return res
 
 
